@@ -731,7 +731,7 @@ func ruleW3(c *Ctx, id string) {
 	}
 	// GetInodeLocked decodes from the same address and size
 	if V.GetInodeLocked != nil {
-		for _, call := range P.CallsIn(V.GetInodeLocked, funcIs(V.ReadBuf)) {
+		for _, call := range P.CallsIn(V.GetInodeLocked, funcIs(V.ReadBuf, V.LogLoad)) {
 			sz, _ := constInt(argN(call, 1))
 			addrOK := false
 			if ac, ok := stripConv(argN(call, 0)).(*ssa.Call); ok && ac.Call.StaticCallee() != nil && ac.Call.StaticCallee().Name() == "Inum2Addr" {
